@@ -11,6 +11,10 @@ that user callbacks mutate through the json layer. An update
   4. otherwise executes the recorded operations on the root and appends the change.
 A panic inside the callback unwinds through `Update`; what happens to the clone then is decided
 by `panicResetsClone` (the pinned code did not reset it; see known_findings.json).
+`Update` also raises the flag `Document.updating` once it holds `d.mu` and lowers it by a deferred
+call on every way out – normal return, error return and the re-panic of the recover handler.
+While the flag is raised `Undo`, `Redo` and `ClearHistory` refuse (`ErrRefusedDuringUpdate`) and
+`CanUndo`/`CanRedo` answer `false` whatever the stacks hold (`historyRefuses`, `canUndo`).
 In this functional model the json-layer mutation of the clone and `Execute` on the root are the
 same function `Crdt.apply` (their agreement on the real code is what the `crdt`/`docupd`
 correspondence checks: clone and root are compared with the model separately).
@@ -52,26 +56,40 @@ structure DocSt where
   locals : List (List Op)
   /-- number of changes created so far (stands for `changeID.clientSeq`/lamport progress) -/
   seq : Nat
+  /-- `Document.updating` (atomic flag): "some goroutine is inside an updater and holds `d.mu`" -/
+  updating : Bool := false
 
 def DocSt.init : DocSt := { root := ⟨Doc.init⟩, clone := none, locals := [], seq := 0 }
+
+/-- `Undo`, `Redo` and `ClearHistory` return `ErrRefusedDuringUpdate` -/
+def historyRefuses (s : DocSt) : Bool := s.updating
+
+/-- `CanUndo()` / `CanRedo()` of a document whose undo / redo stack holds `depth` entries -/
+def canUndo (s : DocSt) (depth : Nat) : Bool := !s.updating && decide (0 < depth)
 
 def applyAll (d : Doc) (ops : List Op) : Doc := ops.foldl apply d
 
 /-- `ensureClone` -/
 def ensureClone (s : DocSt) : Box := s.clone.getD s.root
 
-/-- `Document.Update` with the operations `ops` the callback performs and its outcome -/
-def update (resets : Bool) (s : DocSt) (ops : List Op) : Outcome → DocSt
+/-- the part of `Document.Update` that runs while the flag is raised: the operations `ops` the
+    callback performs and its outcome -/
+def updateBody (resets : Bool) (s : DocSt) (ops : List Op) : Outcome → DocSt
   | .ok =>
     if ops.isEmpty then { s with clone := some (ensureClone s) }
     else
-      { root := applyAllB s.root ops, clone := some (applyAllB (ensureClone s) ops),
-        locals := s.locals ++ [ops], seq := s.seq + 1 }
+      { s with root := applyAllB s.root ops, clone := some (applyAllB (ensureClone s) ops),
+               locals := s.locals ++ [ops], seq := s.seq + 1 }
   | .error _ => { s with clone := none }
   | .rejected => { s with clone := none }
   | .panic n =>
     if resets then { s with clone := none }
     else { s with clone := some (applyAllB (ensureClone s) (ops.take n)) }
+
+/-- `Document.Update`: `d.updating.Store(true)`, the body, and the deferred
+    `d.updating.Store(false)` that runs on every way out (return, error return, re-panic) -/
+def update (resets : Bool) (s : DocSt) (ops : List Op) (o : Outcome) : DocSt :=
+  { updateBody resets { s with updating := true } ops o with updating := false }
 
 /-- remote changes: executed on the clone (created if absent) and on the root -/
 def applyRemote (s : DocSt) (ops : List Op) : DocSt :=
